@@ -217,3 +217,82 @@ def model_part(prop, tier, seed):
     for m in cov["model_counterexamples"]:
         print(f"MODEL-COUNTEREXAMPLE model={m['model']} violated={m.get('violated')} (specification only; reproduced on the code only if a VIOLATION line follows)")
     return cov, extra_pairs
+
+
+# ---------------------------------------------------------------------------
+# conformance of (S) beyond the hand-picked configs: internal traces of RANDOM scenarios
+
+
+def modellable(scn):
+    """Scenarios inside the modelling assumptions of MosaikSched: one entity per simulator, no two
+    connections into the same destination slot from the same source entity (the slot would be ambiguous)."""
+    seen = set()
+    for s in scn["sims"]:
+        if s.get("nent", 1) != 1:
+            return False
+    for c in scn["conns"]:
+        key = (c["src"], c["dst"], c["se"], c["de"], c["da"])
+        if c["data"] and key in seen:
+            return False
+        seen.add(key)
+    return True
+
+
+def random_conformance(prop, tier, seed, fam=None):
+    """Sample scenarios of the random family, run them under several schedules with internal tracing and
+    validate every atomic section against the actions of MosaikSched (one TLC run per scenario variant)."""
+    import concurrent.futures as cf
+    import random
+
+    from harness import families
+
+    nscn = 40 if tier == "quick" else 400
+    rng = random.Random(f"rconf|{prop}|{seed}")
+    jobs = []
+    tries = 0
+    while len(jobs) < nscn and tries < nscn * 20:
+        tries += 1
+        sd = rng.randrange(10**9)
+        scn = families.random_scenario(random.Random(f"scn|{sd}"), **(fam or {}))
+        if not modellable(scn) or not scn["conns"]:
+            continue
+        lazy, cache = rng.random() < 0.5, rng.random() < 0.5
+        v = dict(scn, lazy=lazy, cache=cache)
+        cases = [{"id": ["rconf", sd, lazy, cache, j], "scn": v, "seed": sd * 7 + j, "behaviour": {"kind": "random", "seed": sd},
+                  "policy": {"kind": "random", "early": [0.0, 0.3, 0.7][j % 3]}, "internal": True} for j in range(4 if tier == "quick" else 8)]
+        jobs.append((v, cases))
+    pairs_all, stats = [], {"scenarios": 0, "traces": 0, "accepted": 0, "rejected": 0, "states": 0, "transitions": 0, "skipped": 0, "drift": []}
+
+    # executions run in worker PROCESSES (the harness keeps per-execution global state); only TLC runs in threads
+    flat = explore.run_cases([c for _, cases in jobs for c in cases])
+    pos = 0
+    jobs2 = []
+    for v, cases in jobs:
+        jobs2.append((v, flat[pos:pos + len(cases)]))
+        pos += len(cases)
+
+    def one(job):
+        v, pairs = job
+        if any(r["outcome"].get("phase") == "build" or r["outcome"]["r"] == "ScenarioError" for _, r in pairs):
+            return v, pairs, None, None
+        verdicts, info = mc.validate_internal(v, [r for _, r in pairs], next_offs=(0, 1, 2, 3), fut_offs=(0, 1, 2), timeout=600)
+        return v, pairs, verdicts, info
+
+    with cf.ThreadPoolExecutor(max_workers=8) as ex:
+        for v, pairs, verdicts, info in ex.map(one, jobs2):
+            if verdicts is None:
+                stats["skipped"] += 1
+                continue
+            stats["scenarios"] += 1
+            stats["states"] += info["states"]
+            stats["transitions"] += info["generated"]
+            for (c, r), vd in zip(pairs, verdicts):
+                stats["traces"] += 1
+                stats["accepted" if vd["accepted"] else "rejected"] += 1
+                if not vd["accepted"] and len(stats["drift"]) < 5:
+                    stats["drift"].append({"scn": v, "at": vd["at"], "what": vd["what"], "delivered": r["delivered"][:30], "outcome": r["outcome"]})
+                r.pop("internal", None)
+            pairs_all += pairs
+    for d in stats["drift"]:
+        print(f"DRIFT random-scenario conformance at={d['at']} what={d['what']} (code and specification MosaikSched differ; not a verdict)")
+    return stats, pairs_all
